@@ -236,7 +236,7 @@ class Ctx:
         return p
 
     # ------------------------------------------------------------------ trace validation (U3)
-    def validate(self, family, module, cfg, trace_file, shards=None, max_rejects=8, label="",
+    def validate(self, family, module, cfg, trace_file, shards=None, max_rejects=3, label="",
                  heap="2g", extra_env=None, timeout=1800, sample_n=2, stack=None):
         """Validate an NDJSON trace (scenarios separated by ev=Reset lines) against a trace spec.
         Returns (accepted_scenarios, rejected_scenarios)."""
